@@ -267,6 +267,24 @@ def run_unit(unit, rng, ctx):
     A = rng.normal(size=(3, 3))
     tv = np.asarray(ori.transform(A).vectors)
     ctx.check(np.allclose(tv, np.einsum('ij,tbj->tbi', A, base), atol=1e-9), f'{what}: transform(A) is not A applied to every vector', wit)
+    # matrices close to, but not equal to, special ones (a small strain, a tiny rotation, nearly singular, huge)
+    kindA = str(rng.choice(['near_identity', 'tiny_rotation', 'nearly_singular', 'large', 'identity']))
+    if kindA == 'near_identity':
+        A2 = np.eye(3) + rng.uniform(-1, 1, size=(3, 3)) * 10.0 ** float(rng.uniform(-9, -4))
+    elif kindA == 'tiny_rotation':
+        th_ = 10.0 ** float(rng.uniform(-8, -4))
+        A2 = np.array([[np.cos(th_), -np.sin(th_), 0], [np.sin(th_), np.cos(th_), 0], [0, 0, 1]])
+    elif kindA == 'nearly_singular':
+        A2 = rng.normal(size=(3, 3))
+        A2[2] = A2[0] + 1e-9 * rng.normal(size=3)
+    elif kindA == 'large':
+        A2 = rng.normal(size=(3, 3)) * 1e6
+    else:
+        A2 = np.eye(3)
+    tv2 = np.asarray(ori.transform(A2).vectors)
+    want2_ = np.einsum('ij,tbj->tbi', A2, base)
+    ctx.check(tv2.shape == want2_.shape and float(np.abs(tv2 - want2_).max()) <= 1e-12 * max(1.0, float(np.abs(want2_).max())), f'{what}: transform with a {kindA} matrix is not that matrix applied to every vector (max deviation {float(np.abs(tv2 - want2_).max()):.3e})', {**wit, 'matrix_A': A2})
+    ctx.count(f'transform_matrix:{kindA}')
     # spherical representation is invertible
     sph = np.asarray(ori.vectors_spherical)
     az, el, r = np.radians(sph[..., 0]), np.radians(sph[..., 1]), sph[..., 2]
